@@ -1,10 +1,10 @@
 /-
-Fuel-free, trace-carrying strict semantics of M-PICO programs (proof-only).
+Fuel-free, trace-carrying big-step semantics of M-PICO programs (proof-only).
 
 `BigE P σ m e a v R`: under sources `σ` / tracked fields `m`, expression `e` with parameter `a`
-evaluates strictly (no absent read) to `v`, performing the DIRECT reads `R` in order: source keys
-with what was observed, and callees with the value they returned.  The callee's own reads are not
-part of `R`.  `evalSS` (fuel, cycle check) refines it.
+evaluates (without panicking) to `v`, performing the DIRECT reads `R` in order: source keys with
+what was observed (also `None`), and callees with the value they returned.  The callee's own reads
+are not part of `R`.  `evalS` (fuel, cycle check) refines it.
 -/
 import IsoVerif.Lemmas.PicoStage1
 
@@ -27,8 +27,10 @@ inductive BigE (P : Prog) (σ : Srcs) (m : Maps) : Expr → Nat → Nat → List
   | sing {i a : Nat} {nd : SrcNode} :
       alookup σ (.sing i) = some nd →
       BigE P σ m (.sing i) a (nd.val + 1) [.src (.sing i) (keyObs σ m (.sing i))]
-  | trk {i a : Nat} {nd : SrcNode} :
-      alookup σ (.ctr i) = some nd →
+  | singAbs {i a : Nat} :
+      alookup σ (.sing i) = none →
+      BigE P σ m (.sing i) a 0 [.src (.sing i) (keyObs σ m (.sing i))]
+  | trk {i a : Nat} :
       BigE P σ m (.trk i) a (mapLen m i) [.src (.ctr i) (keyObs σ m (.ctr i))]
   | call {f : Nat} {e : Expr} {a av v : Nat} {R R2 : List Read} :
       BigE P σ m e a av R →
@@ -68,10 +70,16 @@ theorem BigE.det {P : Prog} {σ : Srcs} {m : Maps} {e : Expr} {a v : Nat} {R : L
     intro v' R' h'
     cases h' with
     | sing hl' => rw [hl] at hl'; cases hl'; exact ⟨rfl, rfl⟩
-  | trk hl =>
+    | singAbs hl' => rw [hl] at hl'; cases hl'
+  | singAbs hl =>
     intro v' R' h'
     cases h' with
-    | trk hl' => exact ⟨rfl, rfl⟩
+    | sing hl' => rw [hl] at hl'; cases hl'
+    | singAbs hl' => exact ⟨rfl, rfl⟩
+  | trk =>
+    intro v' R' h'
+    cases h' with
+    | trk => exact ⟨rfl, rfl⟩
   | call he hb ihe ihb =>
     intro v' R' h'
     cases h' with
@@ -121,19 +129,19 @@ theorem BigE.det {P : Prog} {σ : Srcs} {m : Maps} {e : Expr} {a v : Nat} {R : L
       obtain ⟨e1, e2⟩ := ih hx'
       subst e1; subst e2; exact ⟨rfl, rfl⟩
 
-/-! ## `evalSS` refines `BigE` -/
+/-! ## `evalS` refines `BigE` -/
 
-theorem bigE_of_evalPS {P : Prog} {σ : Srcs} {m : Maps} (call : NodeId → Res Nat)
+theorem bigE_of_evalP {P : Prog} {σ : Srcs} {m : Maps} (call : NodeId → Res Nat)
     (hcall : ∀ id v, call id = .ok v → ∃ R, BigN P σ m id v R) :
-    ∀ (e : Expr) (a v : Nat), evalPS call P σ m e a = .ok v → ∃ R, BigE P σ m e a v R := by
+    ∀ (e : Expr) (a v : Nat), evalP call P σ m e a = .ok v → ∃ R, BigE P σ m e a v R := by
   intro e
   induction e with
-  | lit n => intro a v h; simp only [evalPS] at h; cases h; exact ⟨_, .lit _ _⟩
-  | param => intro a v h; simp only [evalPS] at h; cases h; exact ⟨_, .param _⟩
+  | lit n => intro a v h; simp only [evalP] at h; cases h; exact ⟨_, .lit _ _⟩
+  | param => intro a v h; simp only [evalP] at h; cases h; exact ⟨_, .param _⟩
   | src k ih =>
     intro a v h
-    simp only [evalPS] at h
-    cases hk : evalPS call P σ m k a with
+    simp only [evalP] at h
+    cases hk : evalP call P σ m k a with
     | panic p => simp [hk] at h
     | ok kv =>
       simp only [hk] at h
@@ -145,20 +153,18 @@ theorem bigE_of_evalPS {P : Prog} {σ : Srcs} {m : Maps} (call : NodeId → Res 
         exact ⟨_, .src hR hl⟩
   | sing i =>
     intro a v h
-    simp only [evalPS] at h
+    simp only [evalP] at h
     cases hl : alookup σ (.sing i) with
-    | none => simp [hl] at h
+    | none => simp only [hl] at h; cases h; exact ⟨_, .singAbs hl⟩
     | some nd => simp only [hl] at h; cases h; exact ⟨_, .sing hl⟩
   | trk i =>
     intro a v h
-    simp only [evalPS] at h
-    cases hl : alookup σ (.ctr i) with
-    | none => simp [hl] at h
-    | some nd => simp only [hl] at h; cases h; exact ⟨_, .trk hl⟩
+    simp only [evalP] at h
+    cases h; exact ⟨_, .trk⟩
   | call f e ih =>
     intro a v h
-    simp only [evalPS] at h
-    cases he : evalPS call P σ m e a with
+    simp only [evalP] at h
+    cases he : evalP call P σ m e a with
     | panic p => simp [he] at h
     | ok av =>
       simp only [he] at h
@@ -167,12 +173,12 @@ theorem bigE_of_evalPS {P : Prog} {σ : Srcs} {m : Maps} (call : NodeId → Res 
       exact ⟨_, .call hR hR2⟩
   | add x y ihx ihy =>
     intro a v h
-    simp only [evalPS] at h
-    cases hx : evalPS call P σ m x a with
+    simp only [evalP] at h
+    cases hx : evalP call P σ m x a with
     | panic p => simp [hx] at h
     | ok xv =>
       simp only [hx] at h
-      cases hy : evalPS call P σ m y a with
+      cases hy : evalP call P σ m y a with
       | panic p => simp [hy] at h
       | ok yv =>
         simp only [hy] at h; cases h
@@ -181,12 +187,12 @@ theorem bigE_of_evalPS {P : Prog} {σ : Srcs} {m : Maps} (call : NodeId → Res 
         exact ⟨_, .add h1 h2⟩
   | eq x y ihx ihy =>
     intro a v h
-    simp only [evalPS] at h
-    cases hx : evalPS call P σ m x a with
+    simp only [evalP] at h
+    cases hx : evalP call P σ m x a with
     | panic p => simp [hx] at h
     | ok xv =>
       simp only [hx] at h
-      cases hy : evalPS call P σ m y a with
+      cases hy : evalP call P σ m y a with
       | panic p => simp [hy] at h
       | ok yv =>
         simp only [hy] at h; cases h
@@ -195,8 +201,8 @@ theorem bigE_of_evalPS {P : Prog} {σ : Srcs} {m : Maps} (call : NodeId → Res 
         exact ⟨_, .eq h1 h2⟩
   | ite c t e ihc iht ihe =>
     intro a v h
-    simp only [evalPS] at h
-    cases hc : evalPS call P σ m c a with
+    simp only [evalP] at h
+    cases hc : evalP call P σ m c a with
     | panic p => simp [hc] at h
     | ok cv =>
       simp only [hc] at h
@@ -212,37 +218,34 @@ theorem bigE_of_evalPS {P : Prog} {σ : Srcs} {m : Maps} (call : NodeId → Res 
         exact ⟨_, .iteF h1 h2⟩
   | half x ih =>
     intro a v h
-    simp only [evalPS] at h
-    cases hx : evalPS call P σ m x a with
+    simp only [evalP] at h
+    cases hx : evalP call P σ m x a with
     | panic p => simp [hx] at h
     | ok xv =>
       simp only [hx] at h; cases h
       obtain ⟨R, hR⟩ := ih a xv hx
       exact ⟨_, .half hR⟩
 
-theorem bigN_of_evalSS {P : Prog} {σ : Srcs} {m : Maps} :
+theorem bigN_of_evalS {P : Prog} {σ : Srcs} {m : Maps} :
     ∀ (fuel : Nat) (path : List NodeId) (id : NodeId) (v : Nat),
-      evalSS fuel P σ m path id = .ok v → ∃ R, BigN P σ m id v R := by
+      evalS fuel P σ m path id = .ok v → ∃ R, BigN P σ m id v R := by
   intro fuel
   induction fuel with
-  | zero => intro path id v h; simp [evalSS] at h
+  | zero => intro path id v h; simp [evalS] at h
   | succ n ih =>
     intro path id v h
-    simp only [evalSS] at h
+    simp only [evalS] at h
     by_cases hp : path.contains id = true
     · rw [if_pos hp] at h; cases h
     · rw [if_neg hp] at h
-      exact bigE_of_evalPS _ (fun id' v' h' => ih _ _ _ h') _ _ _ h
+      exact bigE_of_evalP _ (fun id' v' h' => ih _ _ _ h') _ _ _ h
 
 /-! ## same reads, same result -/
 
 /-- a read holds under other sources -/
 def Read.holds (P : Prog) (σ : Srcs) (m : Maps) : Read → Prop
-  | .src k o => keyObs σ m k = o ∧ (alookup σ k).isSome = true
+  | .src k o => keyObs σ m k = o
   | .node id v => ∃ R, BigN P σ m id v R
-
-theorem keyObs_val {σ : Srcs} {m : Maps} {k : Key} {nd : SrcNode} (h : alookup σ k = some nd) :
-    (keyObs σ m k).1 = some nd.val := by simp [keyObs, h]
 
 /-- if every direct read of an evaluation holds under `σ'`, the evaluation is the same under `σ'` -/
 theorem BigE.transfer {P : Prog} {σ σ' : Srcs} {m m' : Maps} {e : Expr} {a v : Nat} {R : List Read}
@@ -253,41 +256,37 @@ theorem BigE.transfer {P : Prog} {σ σ' : Srcs} {m m' : Maps} {e : Expr} {a v :
   | @src k a kv R nd hk hl ih =>
     intro hall
     have h1 := ih (fun r hr => hall r (List.mem_append_left _ hr))
-    have h2 := hall (.src (.src kv) (keyObs σ m (.src kv))) (List.mem_append_right _ (List.mem_singleton.2 rfl))
-    obtain ⟨ho, hp⟩ := h2
-    cases hl' : alookup σ' (.src kv) with
-    | none => rw [hl'] at hp; simp at hp
-    | some nd' =>
-      have := BigE.src (P := P) (m := m') h1 hl'
-      rw [ho] at this
-      have hv : nd'.val = nd.val := by
-        have e1 := keyObs_val (m := m) hl
-        have e2 := keyObs_val (m := m') hl'
-        rw [ho] at e2; rw [e1] at e2; exact (Option.some.inj e2).symm
-      rw [hv] at this; exact this
+    have ho : keyObs σ' m' (.src kv) = keyObs σ m (.src kv) :=
+      hall (.src (.src kv) (keyObs σ m (.src kv))) (List.mem_append_right _ (List.mem_singleton.2 rfl))
+    obtain ⟨nd', hl', hv⟩ := lookup_of_obs hl ho
+    have := BigE.src (P := P) (m := m') h1 hl'
+    rw [ho, hv] at this; exact this
   | @sing i a nd hl =>
     intro hall
-    obtain ⟨ho, hp⟩ := hall _ (List.mem_singleton.2 rfl)
-    cases hl' : alookup σ' (.sing i) with
-    | none => rw [hl'] at hp; simp at hp
-    | some nd' =>
-      have hv : nd'.val = nd.val := by
-        have e1 := keyObs_val (m := m) hl
-        have e2 := keyObs_val (m := m') hl'
-        rw [ho] at e2; rw [e1] at e2; exact (Option.some.inj e2).symm
-      have := BigE.sing (P := P) (m := m') (a := a) hl'
-      rw [ho, hv] at this; exact this
-  | @trk i a nd hl =>
+    have ho : keyObs σ' m' (.sing i) = keyObs σ m (.sing i) := hall _ (List.mem_singleton.2 rfl)
+    obtain ⟨nd', hl', hv⟩ := lookup_of_obs hl ho
+    have := BigE.sing (P := P) (m := m') (a := a) hl'
+    rw [ho, hv] at this; exact this
+  | @singAbs i a hl =>
     intro hall
-    obtain ⟨ho, hp⟩ := hall _ (List.mem_singleton.2 rfl)
-    cases hl' : alookup σ' (.ctr i) with
-    | none => rw [hl'] at hp; simp at hp
-    | some nd' =>
-      have hlen : mapLen m' i = mapLen m i := by
-        have := congrArg Prod.snd ho
-        simpa [keyObs] using this
-      have := BigE.trk (P := P) (m := m') (a := a) hl'
-      rw [ho, hlen] at this; exact this
+    have ho : keyObs σ' m' (.sing i) = keyObs σ m (.sing i) := hall _ (List.mem_singleton.2 rfl)
+    have hl' : alookup σ' (.sing i) = none := by
+      cases hq : alookup σ' (.sing i) with
+      | none => rfl
+      | some nd' =>
+        have e1 := keyObs_fst_some (m := m') hq
+        have e2 := keyObs_fst_none (m := m) hl
+        rw [ho, e2] at e1; cases e1
+    have := BigE.singAbs (P := P) (m := m') (a := a) hl'
+    rw [ho] at this; exact this
+  | @trk i a =>
+    intro hall
+    have ho : keyObs σ' m' (.ctr i) = keyObs σ m (.ctr i) := hall _ (List.mem_singleton.2 rfl)
+    have hlen : mapLen m' i = mapLen m i := by
+      have := congrArg Prod.snd ho
+      simpa [keyObs] using this
+    have := BigE.trk (P := P) (σ := σ') (m := m') (i := i) (a := a)
+    rw [ho, hlen] at this; exact this
   | call he hb ihe _ =>
     intro hall
     have h1 := ihe (fun r hr => hall r (List.mem_append_left _ hr))
@@ -307,7 +306,7 @@ theorem BigE.transfer {P : Prog} {σ σ' : Srcs} {m m' : Maps} {e : Expr} {a v :
     exact .iteF (ihc (fun r hr => hall r (List.mem_append_left _ hr))) (ihe (fun r hr => hall r (List.mem_append_right _ hr)))
   | half hx ih => intro hall; exact .half (ih hall)
 
-/-- every source read of an evaluation found the key present, with the observation recorded -/
+/-- every read of an evaluation holds under the sources it was made under -/
 theorem BigE.reads_hold {P : Prog} {σ : Srcs} {m : Maps} {e : Expr} {a v : Nat} {R : List Read}
     (h : BigE P σ m e a v R) : ∀ r, r ∈ R → r.holds P σ m := by
   induction h with
@@ -317,9 +316,10 @@ theorem BigE.reads_hold {P : Prog} {σ : Srcs} {m : Maps} {e : Expr} {a v : Nat}
     intro r hr
     rcases List.mem_append.1 hr with h1 | h1
     · exact ih r h1
-    · rw [List.mem_singleton.1 h1]; exact ⟨rfl, by simp [hl]⟩
-  | sing hl => intro r hr; rw [List.mem_singleton.1 hr]; exact ⟨rfl, by simp [hl]⟩
-  | trk hl => intro r hr; rw [List.mem_singleton.1 hr]; exact ⟨rfl, by simp [hl]⟩
+    · rw [List.mem_singleton.1 h1]; rfl
+  | sing hl => intro r hr; rw [List.mem_singleton.1 hr]; rfl
+  | singAbs hl => intro r hr; rw [List.mem_singleton.1 hr]; rfl
+  | trk => intro r hr; rw [List.mem_singleton.1 hr]; rfl
   | call he hb ihe _ =>
     intro r hr
     rcases List.mem_append.1 hr with h1 | h1
